@@ -135,7 +135,7 @@ def containsRanges : List String :=
   ["h2.Stamps", "h.Stamps", "h2.Links", "h.Links", "h2.Tags", "h.Tags", "h2.Meta"]
 def containsReturns : List String :=
   ["false", "false", "false", "false", "false", "false", "false", "true"]
-def addStampConds : List String := ["in == nil", "v.Provider == s.Provider"]
+def addStampConds : List String := ["in == nil", "v != nil && v.Provider == s.Provider"]
 def addStampReturns : List String := ["[]*Stamp{s}", "in", "append(in, s)"]
 def appendLinkConds : List String := ["l == nil", "v.Key == l.Key"]
 def appendLinkReturns : List String := ["list", "list", "append(list, l)"]
@@ -146,8 +146,8 @@ def rulesStamps : List String :=
   ["validation.When( !internal.IsSigned(ctx), validation.Empty, )", "DetectDuplicateStamps"]
 def rulesLinks : List String := ["DetectDuplicateLinks"]
 def rulesDigest : List String := ["validation.Required"]
-def stampInConds : List String := ["s.Provider == r.Provider"]
-def dupStampConds : List String := ["!ok", "v.In(set)"]
+def stampInConds : List String := ["r != nil && s.Provider == r.Provider"]
+def dupStampConds : List String := ["!ok", "v == nil", "v.In(set)"]
 def dupLinkConds : List String := ["!ok || len(values) == 0", "l := LinkByKey(set, v.Key); l != nil"]
 
 end GoblVerif.WrittenAgainst
